@@ -1151,6 +1151,8 @@ class SpecLib:
         def l_append(ex, a, kw):
             box, v = a
             s = box.val
+            if isinstance(v, VOpt) and s.ety is not None and not (isinstance(s.ety, tuple) and s.ety[0] in ("opt", "rec", "ref")):
+                raise Unsupported("append of a possibly-None value to a list of %s" % (s.ety,))
             if s.pyval == [] and s.ety is None:
                 ety = type_of(v)
                 box.val = VSeq("list", ety, z3.Unit(unwrap(ety, v)))
